@@ -47,6 +47,7 @@ type HarnessSpec struct {
 	Known          []Known           `json:"known"`
 	MakeSliceMax   int               `json:"makeslice_max"`
 	InjectFailures bool              `json:"inject_failures"`
+	MaxSeconds     int               `json:"max_seconds"`
 }
 
 type Job struct {
